@@ -688,7 +688,7 @@ func init() {
 		n = 0
 		{
 			sig := func(ht byte) []byte { return gen.Push([]byte{0x30, 0x06, 0x02, 0x01, 0x01, 0x02, 0x01, 0x01, ht}) }
-			for _, size := range []int{16384, 16385, 20000, 32768, 40000, 70000} {
+			for _, size := range []int{252, 253, 254, 16384, 16385, 20000, 32768, 40000, 65535, 65536, 65537, 70000} { // (incl. the values on both sides of each length-prefix step: the context is cloned through the wire format)
 				for _, ht := range []byte{0x01, 0x41, 0x03, 0xc2} {
 					progs := [][2][]byte{
 						{sig(ht), append(gen.Push(c07KeyG), 0xac)},
